@@ -196,7 +196,7 @@ Definition xzsplit_init : xzsplit := mkXzsplit [] [] 0.
 
 Definition sp_should_finish (bs : option Z) (s : xzsplit) : bool :=
   match bs with Some b => b <=? sp_size s | None => false end.
-Definition sp_close (s : xzsplit) : xzsplit := mkXzsplit (rev (sp_cur s) :: sp_done s) [] 0.
+Definition sp_close (s : xzsplit) : xzsplit := mkXzsplit (frev (sp_cur s) :: sp_done s) [] 0.
 Definition sp_push (s : xzsplit) (buf : list Z) : xzsplit :=
   mkXzsplit (sp_done s) (rev_append buf (sp_cur s)) (sp_size s + zlen buf).
 
@@ -232,7 +232,7 @@ Fixpoint xz_write_calls (fx : xzfix) (bs : option Z) (s : xzsplit) (parts : list
 (* the blocks of the finished stream, oldest first (flush() and empty writes change nothing) *)
 Definition xz_blocks_of (fx : xzfix) (bs : option Z) (parts : list (list Z)) : outcome (list (list Z)) :=
   do s <- xz_write_calls fx bs xzsplit_init parts;
-  Ok (rev (if 0 <? sp_size s then rev (sp_cur s) :: sp_done s else sp_done s)).
+  Ok (frev (if 0 <? sp_size s then frev (sp_cur s) :: sp_done s else sp_done s)).
 
 Fixpoint xz_blocks_bytes (fx : xzfix) (o : xzopts) (blocks payloads : list (list Z))
   : outcome (list Z * list (Z * Z)) :=
@@ -352,7 +352,7 @@ Definition bh_filter_props (k : fkind) (s : list Z) : outcome (Z * list Z) :=
 (* the loop "for i in 0..num_filters" *)
 Fixpoint bh_filters_loop (n : nat) (s : list Z) (acc : list (fkind * Z)) : outcome (list (fkind * Z) * list Z) :=
   match n with
-  | O => Ok (rev acc, s)
+  | O => Ok (frev acc, s)
   | S k =>
       match s with
       | [] => Err E_INVALID_DATA                       (* "too short for filters" *)
@@ -377,7 +377,7 @@ Fixpoint bh_padding (s : list Z) : outcome (list Z) :=
   end.
 
 Definition last_is_lzma2 (fs : list (fkind * Z)) : bool :=
-  match rev fs with (FLZMA2, _) :: _ => true | _ => false end.
+  match frev fs with (FLZMA2, _) :: _ => true | _ => false end.
 
 (* BlockHeader::parse; Ok (None, rest) = index indicator seen *)
 Definition xz_parse_block_header (src : list Z) : outcome (option bhdr * list Z) :=
@@ -437,7 +437,7 @@ Definition xz_verify_check (ct : Z) (computed : list Z) (src : list Z) : outcome
 (* the record loop of Index::parse; every iteration consumes at least two bytes *)
 Fixpoint xz_index_records_loop (fuel : nat) (count : Z) (src : list Z) (acc : list (Z * Z))
   : outcome (list (Z * Z) * list Z) :=
-  if count <=? 0 then Ok (rev acc, src) else
+  if count <=? 0 then Ok (frev acc, src) else
   match fuel with
   | O => Fuel
   | S f =>
@@ -551,7 +551,7 @@ Fixpoint xz_chain_deltas (fs : list (fkind * Z)) : outcome (list delta) :=
   end.
 
 Definition xz_chain_dict (fs : list (fkind * Z)) : Z :=
-  match rev fs with (_, d) :: _ => d | [] => 0 end.
+  match frev fs with (_, d) :: _ => d | [] => 0 end.
 
 (* the bytes of one read() pass through the Delta readers from the innermost to the outermost *)
 Fixpoint xz_deltas_decode (ds : list delta) (bytes : list Z) : outcome (list delta * list Z) :=
@@ -588,7 +588,7 @@ Fixpoint xzr_read_loop (fuel : nat) (fx : xzfix) (s : xzr) (ct : Z) (buflen : Z)
               (* "Current block is finished": back to the shared reader *)
               let src := m_in lz1 in
               do s1 <- xz_consume_padding (r_total s - zlen src) src;
-              do s2 <- xz_verify_check ct (xz_check_bytes ct (rev (bk_content bk))) s1;
+              do s2 <- xz_verify_check ct (xz_check_bytes ct (frev (bk_content bk))) s1;
               xzr_read_loop f fx (xzr_set s s2 (Some ct) None false (r_blocks s)) ct buflen
           end
       | None =>
@@ -641,9 +641,9 @@ Fixpoint xzr_read_all (fuel : nat) (fx : xzfix) (s : xzr) (sizes all : list Z) (
       let '(sz, rest) := match sizes with [] => (4096, all) | x :: r => (x, r) end in
       match xzr_read fx s sz with
       | Ok (out, s1) =>
-          if (0 <? sz) && (zlen out =? 0) then Ok (rev acc, 0, s1)
+          if (0 <? sz) && (zlen out =? 0) then Ok (frev acc, 0, s1)
           else xzr_read_all f fx s1 (match rest with [] => all | _ => rest end) all (rev_append out acc)
-      | Err e => Ok (rev acc, e, s)
+      | Err e => Ok (frev acc, e, s)
       | Panic e => Panic e
       | Fuel => Fuel
       end
@@ -695,9 +695,9 @@ Section WholeFile.
           let '(nct, r3) := nx in
           match nct with
           | Some ct2 => xzd_streams f fx multi ct2 r3 (pos1 + (zlen r1 - zlen r3)) acc1
-          | None => Ok (rev acc1, r3)
+          | None => Ok (frev acc1, r3)
           end
-        else Ok (rev acc1, r2)
+        else Ok (frev acc1, r2)
     end.
 
   (* (content, unconsumed bytes of the source) *)
@@ -715,25 +715,37 @@ Fixpoint lzma2_drain (fuel : nat) (s : lzma2) (acc : list Z) : outcome (list Z *
       do r <- lzma2_read s 4096;
       let '(out, s1) := r in
       match out with
-      | [] => Ok (rev acc, m_in s1)
+      | [] => Ok (frev acc, m_in s1)
       | _ => lzma2_drain f s1 (rev_append out acc)
       end
   end.
 
+(* [calls] bounds the number of 4096-byte read() calls (running out of it is reported as Fuel) *)
+Definition lzma2_payload_dec_n (calls : nat) (dict : Z) (src : list Z) : outcome (list Z * list Z) :=
+  do s <- lzma2_new src dict None;
+  lzma2_drain calls s [].
+
 (* a chunk header of at least 3 bytes announces at most 2 MiB: 512 calls of 4096 bytes *)
 Definition lzma2_payload_dec (dict : Z) (src : list Z) : outcome (list Z * list Z) :=
-  do s <- lzma2_new src dict None;
-  lzma2_drain (S (S (171 * length src))) s [].
+  lzma2_payload_dec_n (S (S (171 * length src))) dict src.
 
-Definition xz_blockdec (fs : list (fkind * Z)) (src : list Z) : outcome (list Z * list Z) :=
+Definition xz_blockdec_gen (pdec : Z -> list Z -> outcome (list Z * list Z)) (fs : list (fkind * Z)) (src : list Z)
+  : outcome (list Z * list Z) :=
   do ds <- xz_chain_deltas fs;
-  do pr <- lzma2_payload_dec (xz_chain_dict fs) src;
+  do pr <- pdec (xz_chain_dict fs) src;
   let '(raw, rest) := pr in
   do dr <- xz_deltas_decode ds raw;
   Ok (snd dr, rest).
 
+Definition xz_blockdec := xz_blockdec_gen lzma2_payload_dec.
+
 Definition xz_decode_c (fx : xzfix) (multi : bool) (src : list Z) : outcome (list Z * list Z) :=
   xz_decode xz_check_bytes xz_blockdec fx multi src.
+
+(* the same with an output budget per block of [cap] bytes (for the correspondence runs on damaged
+   files whose size fields promise megabytes) *)
+Definition xz_decode_capped (fx : xzfix) (multi : bool) (cap : Z) (src : list Z) : outcome (list Z * list Z) :=
+  xz_decode xz_check_bytes (xz_blockdec_gen (lzma2_payload_dec_n (Z.to_nat (cap / 4096 + 3)))) fx multi src.
 
 (* ------------------------------------------------------------------------------------------- *)
 (* entry points for the driver: options as plain numbers (filter ids as in the file format) *)
